@@ -682,11 +682,13 @@ func planC08(g *Gen, tier string) GenOutput {
 	for n := 0; n <= maxRows; n++ {
 		a := Col{Key: "a", Name: "a", Data: []Cell{}}
 		idx := Col{Key: "index", Name: "index", Data: []Cell{}}
+		fl := Col{Key: "f", Name: "f", Data: []Cell{}}
 		for i := 0; i < n; i++ {
 			a.Data = append(a.Data, StrCell(fmt.Sprintf("r%d", i)))
 			idx.Data = append(idx.Data, IntCell("int", int64(i%2)))
+			fl.Data = append(fl.Data, []Cell{F64Cell(math.NaN()), F64Cell(1.5), F64Cell(math.Copysign(0, -1)), NilCell(), F64Cell(math.Inf(-1))}[i%5])
 		}
-		f := mkFrame(a, idx)
+		f := mkFrame(a, idx, fl)
 		ops := []Op{}
 		for c := int64(-1); c <= int64(n+2); c++ {
 			ops = append(ops, Op{K: "head", F: 0, N: c}, Op{K: "tail", F: 0, N: c}, Op{K: "row", F: 0, N: c})
@@ -725,7 +727,7 @@ func planC08(g *Gen, tier string) GenOutput {
 			}
 			rec([]int64{}, maxLen)
 			for _, l := range lists {
-				ops = append(ops, Op{K: "iloc", F: 0, Ints: l, Ints2: []int64{0, 1}})
+				ops = append(ops, Op{K: "iloc", F: 0, Ints: l, Ints2: []int64{0, 1, 2}})
 			}
 		}
 		for i := 0; i < len(ops); i += 12 {
@@ -1090,7 +1092,10 @@ func planC17seq(g *Gen, tier string) GenOutput {
 			o := g.genOp("apply", []Frame{f}, 0)
 			if g.chance(0.25) {
 				// functions returning a slice of another length, or their own argument
-				o.Fn = []int{9, 10, 11}[g.r.Intn(3)]
+				o.Fn = []int{9, 10, 11, 12, 13}[g.r.Intn(5)]
+				if (o.Fn == 12 || o.Fn == 13) && o.Axis != nil && len(*o.Axis) > 0 && (*o.Axis)[0] != 0 {
+					o.Axis = nil // typed slices are not scalar cells row-wise
+				}
 			}
 			ops = append(ops, o)
 		}
